@@ -270,13 +270,13 @@ theorem next_after_last (tab : List RChunk) (it : Iter) (h : ∀ k ∈ wanted it
 
 /-! ## the header cache: when nothing is dropped the region is the plain serialisation -/
 
-theorem writef_flags_length : ∀ (items : List Item) (h : HC), (h.writef items).2.length = items.length := by
+theorem writef_flags_length (bump : HC → Nat → Option HC) : ∀ (items : List Item) (h : HC), (HC.writefW bump h items).2.length = items.length := by
   intro items
   induction items with
-  | nil => intro h; simp [HC.writef]
+  | nil => intro h; simp [HC.writefW]
   | cons it rest ih =>
     intro h
-    unfold HC.writef
+    unfold HC.writefW
     split
     · simp
     · split
@@ -293,10 +293,10 @@ theorem all_true_4 (f : List Bool) (hl : f.length = 4) (ha : f.all id = true) : 
   match f, hl with
   | [a, b, c, d], _ => simp at ha; simp [ha]
 
-theorem emitChunk_all (c : Container) (w : WChunk) (h : HC)
-    (ha : (h.writef (chunkItems c w.len)).2.all id = true) :
-    emitChunk c w (h.writef (chunkItems c w.len)).2 = ser c w := by
-  have hl := writef_flags_length (chunkItems c w.len) h
+theorem emitChunk_all (bump : HC → Nat → Option HC) (c : Container) (w : WChunk) (h : HC)
+    (ha : (HC.writefW bump h (chunkItems c w.len)).2.all id = true) :
+    emitChunk c w (HC.writefW bump h (chunkItems c w.len)).2 = ser c w := by
+  have hl := writef_flags_length bump (chunkItems c w.len) h
   cases c
   case caf =>
     have := all_true_4 _ (by simpa [chunkItems] using hl) ha
@@ -305,45 +305,162 @@ theorem emitChunk_all (c : Container) (w : WChunk) (h : HC)
     have := all_true_3 _ (by simpa [chunkItems] using hl) ha
     rw [this]; simp [emitChunk, ser, Mark.bytes]
 
-theorem emitChunks_all (c : Container) : ∀ (ws : List WChunk) (h : HC),
-    (HC.writeChunks c h (ws.map (·.len))).2.all (·.all id) = true →
-    emitChunks c ws (HC.writeChunks c h (ws.map (·.len))).2 = serAll c ws := by
+theorem emitChunks_all (bump : HC → Nat → Option HC) (c : Container) : ∀ (ws : List WChunk) (h : HC),
+    (HC.writeChunksW bump c h (ws.map (·.len))).2.all (·.all id) = true →
+    emitChunks c ws (HC.writeChunksW bump c h (ws.map (·.len))).2 = serAll c ws := by
   intro ws
   induction ws with
   | nil => intro h _; simp [emitChunks, serAll]
   | cons w ws ih =>
     intro h ha
-    simp only [List.map_cons, HC.writeChunks, List.all_cons, Bool.and_eq_true] at ha ⊢
+    simp only [List.map_cons, HC.writeChunksW, List.all_cons, Bool.and_eq_true] at ha ⊢
     simp only [emitChunks, serAll_length_cons]
-    rw [emitChunk_all c w h ha.1, ih _ ha.2]
+    rw [emitChunk_all bump c w h ha.1, ih _ ha.2]
 
 /-- `hdrFits` ⇒ the bytes between the container's own chunks are exactly the serialised custom chunks -/
 theorem region_of_fits (c : Container) (pre : Nat) (ws : List WChunk) (h : hdrFits c pre (ws.map (·.len)) = true) :
     customRegion c pre ws = serAll c ws := by
-  unfold hdrFits cachePasses at h
+  unfold hdrFits cachePasses cachePassesW at h
   simp only [Bool.and_eq_true] at h
-  unfold customRegion cachePasses
-  exact emitChunks_all c ws _ h.1
+  unfold customRegion cachePasses cachePassesW
+  exact emitChunks_all HC.bump c ws _ h.1
 
-/-- The statement allows payloads up to 64 KiB; the cache does not: "every chunk of at most 64 KiB fits" is false. -/
+/-! ### what the header cache holds since the repair of psf_bump_header_allocation: everything up to its limit -/
+
+/-- a request that fits the limit is granted (the repaired rule): the buffer then covers `indx + needed` -/
+theorem bump_grants (h : HC) (n : Nat) (h1 : h.indx ≤ h.len) (h3 : h.len ≤ HEADER_CAP) (hn : h.indx + n ≤ HEADER_CAP) :
+    ∃ len', HC.bump h n = some ⟨h.indx, len'⟩ ∧ h.indx + n ≤ len' ∧ h.len ≤ len' ∧ len' ≤ HEADER_CAP := by
+  unfold HC.bump
+  simp only
+  by_cases hc : (if n > h.len then 2 * max n 256 else 2 * h.len) > HEADER_CAP
+  · rw [if_pos hc, if_neg (by omega)]
+    exact ⟨HEADER_CAP, rfl, hn, h3, Nat.le_refl _⟩
+  · rw [if_neg hc]
+    refine ⟨_, rfl, ?_, ?_, by omega⟩
+    · split <;> omega
+    · split <;> omega
+
+def sumN (its : List Item) : Nat := (its.map (·.n)).sum
+
+/-- one `psf_binheader_writef` call whose items end at least 16 bytes below the limit: every item is kept -/
+theorem writef_all_kept : ∀ (its : List Item) (h : HC), (∀ it ∈ its, it.raw = false → it.n ≤ 16) →
+    h.indx ≤ h.len → h.len ≤ HEADER_CAP → h.indx + sumN its + 16 ≤ HEADER_CAP →
+    (h.writef its).2.all id = true ∧ (h.writef its).1.indx = h.indx + sumN its ∧
+    (h.writef its).1.indx ≤ (h.writef its).1.len ∧ (h.writef its).1.len ≤ HEADER_CAP ∧ h.len ≤ (h.writef its).1.len := by
+  intro its
+  induction its with
+  | nil => intro h _ h1 h3 _; simp [HC.writef, HC.writefW, sumN, h1, h3]
+  | cons it rest ih =>
+    intro h hits h1 h3 hsum
+    have hsN : sumN (it :: rest) = it.n + sumN rest := by simp [sumN]
+    rw [hsN] at hsum
+    have hrest : ∀ x ∈ rest, x.raw = false → x.n ≤ 16 := fun x hx => hits x (List.mem_cons_of_mem _ hx)
+    -- the loop head
+    have hhead : ∃ len1, (if h.indx + 16 ≥ h.len then HC.bump h 16 else some h) = some ⟨h.indx, len1⟩ ∧
+        h.indx + 16 ≤ len1 ∧ len1 ≤ HEADER_CAP ∧ h.len ≤ len1 := by
+      by_cases hc : h.indx + 16 ≥ h.len
+      · rw [if_pos hc]
+        obtain ⟨l, e, a, m, d⟩ := bump_grants h 16 h1 h3 (by omega)
+        exact ⟨l, e, a, d, m⟩
+      · rw [if_neg hc]; exact ⟨h.len, rfl, by omega, h3, Nat.le_refl _⟩
+    obtain ⟨len1, e1, a1, d1, m1⟩ := hhead
+    unfold HC.writef at ih ⊢
+    rw [HC.writefW, e1]
+    simp only
+    by_cases hraw : it.raw = true
+    · rw [if_pos hraw]
+      by_cases hbig : h.indx + it.n > len1
+      · rw [if_pos hbig]
+        obtain ⟨l2, e2, a2, m2, d2⟩ := bump_grants ⟨h.indx, len1⟩ it.n (by simp only; omega) d1 (by simp only; omega)
+        rw [e2]
+        simp only
+        obtain ⟨r1, r2, r3, r4, r5⟩ := ih ⟨h.indx + it.n, l2⟩ hrest (by simp only; omega) d2 (by simp only; omega)
+        simp only at r2 r5 m2
+        refine ⟨by simp [r1], by rw [r2, hsN]; omega, r3, r4, by first | omega | (simp only; omega)⟩
+      · rw [if_neg hbig]
+        obtain ⟨r1, r2, r3, r4, r5⟩ := ih ⟨h.indx + it.n, len1⟩ hrest (by simp only; omega) d1 (by simp only; omega)
+        simp only at r2 r5
+        refine ⟨by simp [r1], by rw [r2, hsN]; omega, r3, r4, by first | omega | (simp only; omega)⟩
+    · rw [if_neg hraw]
+      have hn := hits it (List.mem_cons_self ..) (by simpa using hraw)
+      obtain ⟨r1, r2, r3, r4, r5⟩ := ih ⟨h.indx + it.n, len1⟩ hrest (by simp only; omega) d1 (by simp only; omega)
+      simp only at r2 r5
+      refine ⟨by simp [r1], by rw [r2, hsN]; omega, r3, r4, by first | omega | (simp only; omega)⟩
+
+/-- the bytes the custom chunks occupy in the header: id and size field(s) plus the padded payload, each -/
+def totalLen (c : Container) (lens : List Nat) : Nat := (lens.map fun n => hdrLen c + n).sum
+
+theorem chunkItems_spec (c : Container) (n : Nat) :
+    (∀ it ∈ chunkItems c n, it.raw = false → it.n ≤ 16) ∧ sumN (chunkItems c n) = hdrLen c + n := by
+  cases c <;> simp [chunkItems, sumN, hdrLen] <;> omega
+
+/-- the custom-chunk loop from any state of the cache: everything is kept when the chunks end 16 bytes below the limit -/
+theorem writeChunks_all_kept (c : Container) : ∀ (lens : List Nat) (h : HC),
+    h.indx ≤ h.len → h.len ≤ HEADER_CAP → h.indx + totalLen c lens + 16 ≤ HEADER_CAP →
+    (HC.writeChunks c h lens).2.all (·.all id) = true ∧ (HC.writeChunks c h lens).1.len ≤ HEADER_CAP ∧
+    h.len ≤ (HC.writeChunks c h lens).1.len := by
+  intro lens
+  induction lens with
+  | nil => intro h _ h3 _; simp [HC.writeChunks, HC.writeChunksW, h3]
+  | cons n ns ih =>
+    intro h h1 h3 hsum
+    have ht : totalLen c (n :: ns) = hdrLen c + n + totalLen c ns := by simp [totalLen]
+    rw [ht] at hsum
+    obtain ⟨hi, hs⟩ := chunkItems_spec c n
+    obtain ⟨r1, r2, r3, r4, r5⟩ := writef_all_kept (chunkItems c n) h hi h1 h3 (by rw [hs]; omega)
+    unfold HC.writeChunks at ih ⊢
+    unfold HC.writef at r1 r2 r3 r4 r5
+    rw [HC.writeChunksW]
+    simp only
+    obtain ⟨q1, q2, q3⟩ := ih (HC.writefW HC.bump h (chunkItems c n)).1 r3 r4 (by rw [r2, hs]; omega)
+    exact ⟨by simp [r1, q1], q2, by omega⟩
+
+/-- **hdr_fits_up_to_cap** (the repaired allocation rule, full strength up to the limit): whatever the number and the sizes of
+    the custom chunks, when they end at least 16 bytes (the head room every `psf_binheader_writef` item asks for) below the
+    100 KiB of the header buffer, every byte of every chunk reaches the header, in both passes -/
+theorem hdr_fits_up_to_cap (c : Container) (pre : Nat) (lens : List Nat) (hpre : pre ≤ 256)
+    (h : pre + totalLen c lens + 16 ≤ HEADER_CAP) : hdrFits c pre lens = true := by
+  unfold hdrFits cachePasses cachePassesW
+  have p1 := writeChunks_all_kept c lens ⟨pre, 256⟩ hpre (by simp [HEADER_CAP]) h
+  unfold HC.writeChunks at p1
+  -- the allocation never shrinks: the second pass starts with at least the 256 bytes of the first
+  have p2 := writeChunks_all_kept c lens ⟨pre, (HC.writeChunksW HC.bump c ⟨pre, 256⟩ lens).1.len⟩
+    (by have := p1.2.2; simp only at this ⊢; omega) p1.2.1 h
+  unfold HC.writeChunks at p2
+  simp [p1.1, p2.1]
+
+/-- ONE chunk of any size the statement allows (payload ≤ 64 KiB) always fits, in every container, whatever precedes it in
+    an ordinary header (`pre ≤ 256`): the limit for a single chunk moved from 51 200 bytes to the whole buffer -/
+theorem one_chunk_always_fits (c : Container) (pre n : Nat) (hpre : pre ≤ 256) (hn : n ≤ 65536) : hdrFits c pre [n] = true := by
+  apply hdr_fits_up_to_cap c pre [n] hpre
+  cases c <;> simp [totalLen, hdrLen, HEADER_CAP] <;> omega
+
+/-- The statement allows any number of payloads up to 64 KiB; no cache of 100 KiB does: "every list of chunks of at most 64 KiB
+    fits" stays false (the remaining part of the known finding C13-header-cache) -/
 def hdr_always_fits_full : Prop :=
   ∀ (c : Container) (pre : Nat) (lens : List Nat), pre ≤ 256 → (∀ n ∈ lens, n ≤ 65536) → hdrFits c pre lens = true
 
-/-- DESIGN §8 #18: one chunk whose padded length is 51 204 (payload 51 201 … 51 204 bytes) is dropped, in every container;
-    51 200 is the largest single chunk that is kept. -/
-theorem one_big_chunk_is_dropped :
-    hdrFits .wav 36 [51204] = false ∧ hdrFits .rf64 96 [51204] = false ∧
-    hdrFits .aiff 38 [51204] = false ∧ hdrFits .caf 52 [51204] = false ∧
-    (cachePasses .wav 36 [51204]).1 = [[true, true, false]] ∧
-    hdrFits .wav 36 [51200] = true := by decide
-
 theorem hdr_not_always_fits : ¬ hdr_always_fits_full := by
   intro h
-  have := h .wav 36 [51204] (by decide) (by decide)
+  have := h .wav 36 [65536, 65536] (by decide) (by decide)
   exact absurd this (by decide)
 
-/-- several chunks totalling about 100 KiB are refused as well although each is small -/
-example : hdrFits .wav 36 [30000, 30000] = false ∧ hdrFits .wav 36 [20000, 20000] = true := by decide
+/-- two chunks of 64 KiB: the second one's payload is dropped (id and size are written), in every container; chunks totalling
+    just under the limit are kept -/
+theorem chunks_beyond_cap_dropped :
+    hdrFits .wav 36 [65536, 65536] = false ∧ hdrFits .rf64 96 [65536, 65536] = false ∧
+    hdrFits .aiff 38 [65536, 65536] = false ∧ hdrFits .caf 52 [65536, 65536] = false ∧
+    (cachePasses .wav 36 [65536, 65536]).1 = [[true, true, true], [true, true, false]] ∧
+    hdrFits .wav 36 [30000, 30000, 30000] = true ∧ hdrFits .wav 36 [51204] = true ∧ hdrFits .wav 36 [65536] = true := by decide
+
+/-- DESIGN §8 #18, before the repair: one chunk whose padded length is 51 204 (payload 51 201 … 51 204 bytes) was dropped, in
+    every container; 51 200 was the largest single chunk that was kept; several chunks totalling about 100 KiB likewise -/
+theorem one_big_chunk_is_dropped_old_rule :
+    hdrFitsOld .wav 36 [51204] = false ∧ hdrFitsOld .rf64 96 [51204] = false ∧
+    hdrFitsOld .aiff 38 [51204] = false ∧ hdrFitsOld .caf 52 [51204] = false ∧
+    (cachePassesW HC.bumpOld .wav 36 [51204]).1 = [[true, true, false]] ∧
+    hdrFitsOld .wav 36 [51200] = true ∧
+    hdrFitsOld .wav 36 [30000, 30000] = false ∧ hdrFitsOld .wav 36 [20000, 20000] = true := by decide
 
 /-! ## the round trip, for EVERY id the repaired `sf_set_chunk` accepts -/
 
@@ -458,6 +575,37 @@ theorem chunks_roundtrip (c : Container) (pre : Nat) (l : List Req) (hf : fits c
   have := parse_serAll c (l.map toW) hok fuel pre tail
   rw [List.length_map] at this
   rw [hreg, this, entries_expected]
+
+theorem le_totalLen (c : Container) : ∀ (lens : List Nat) (n : Nat), n ∈ lens → n ≤ totalLen c lens := by
+  intro lens
+  induction lens with
+  | nil => intro n hn; cases hn
+  | cons x xs ih =>
+    intro n hn
+    have ht : totalLen c (x :: xs) = hdrLen c + x + totalLen c xs := by simp [totalLen]
+    rcases List.mem_cons.mp hn with rfl | hn
+    · omega
+    · have := ih n hn; omega
+
+/-- **chunks_roundtrip_within_cap**: `chunks_roundtrip` with the header cache's condition made explicit — every list of custom
+    chunks (ANY number, ANY accepted ids, ANY payload sizes) whose serialisation ends 16 bytes below the 100 KiB of the header
+    buffer round-trips.  (Beyond that limit chunks are still dropped silently: the remaining part of C13-header-cache.) -/
+theorem chunks_roundtrip_within_cap (c : Container) (pre : Nat) (l : List Req) (hid : ∀ r ∈ l, legalId c r.id = true)
+    (hpre : pre ≤ 256) (hsize : pre + totalLen c (l.map fun r => pad4 r.payload.length) + 16 ≤ HEADER_CAP)
+    (fuel : Nat) (tail : List Byte) :
+    let region := customRegion c pre (l.map toW)
+    (parse c (l.length + fuel) pre (region ++ tail)).1
+      = expected c l pre ++ (parse c fuel (pre + region.length) tail).1 := by
+  apply chunks_roundtrip c pre l ⟨?_, hdr_fits_up_to_cap c pre _ hpre hsize⟩
+  intro r hr
+  refine ⟨hid r hr, ?_⟩
+  have h1 := le_totalLen c (l.map fun r => pad4 r.payload.length) (pad4 r.payload.length) (List.mem_map.2 ⟨r, hr, rfl⟩)
+  have h2 : r.payload.length ≤ pad4 r.payload.length := by unfold pad4; omega
+  unfold HEADER_CAP at hsize
+  omega
+
+example : 36 + totalLen .wav ([⟨[97, 98, 99, 100], List.replicate 65536 7⟩, ⟨[120], [1]⟩].map fun r : Req => pad4 r.payload.length) + 16 ≤ HEADER_CAP := by
+  decide +kernel
 
 /-- non-vacuity + concrete instance: a four-character id with an odd payload, a duplicate id, a THREE-character
     id and a ONE-character id in a WAV header -/
